@@ -54,6 +54,11 @@ func init() {
 				ruleProxyForwardsSameEnvelopeOnce(c, "C01.9")
 				ruleDemuxRouting(c, "C01.9", "C01.9")
 			})
+			c.guard("C01.10", func() {
+				// one caller's failure does not take other callers' replies away; replies wait only for their queue
+				ruleWhoPublishesFailure(c, "C01.10")
+				ruleWaitingEscapable(c, "C01.10")
+			})
 		},
 	})
 }
@@ -84,6 +89,7 @@ func init() {
 			})
 			c.guard("C02.7", func() { ruleHalfCloseAndFinalStatus(c, "C02.7") })
 			c.guard("C02.8", func() { ruleTransportPassThrough(c, "C02.8") })
+			c.guard("C02.9", func() { ruleWaitingEscapable(c, "C02.9") })
 		},
 	})
 	register(&propSpec{
@@ -139,6 +145,12 @@ func init() {
 			})
 			c.guard("C05.5", func() { ruleRegistrationKey(c, "C05.5") })
 			c.guard("C05.6", func() { ruleFreshPerCallState(c, "C05.6") })
+			c.guard("C05.7", func() {
+				// what a call puts on the wire is an owned copy of its own message: no bytes shared between calls
+				rulePayloadProvenance(c, "C05.7")
+				ruleStreamPayloadProvenance(c, "C05.7")
+				ruleWhoPublishesFailure(c, "C05.7")
+			})
 		},
 	})
 	register(&propSpec{
@@ -168,7 +180,7 @@ func init() {
 		run: func(c *Ctx, thorough bool) {
 			c.guard("C07.1", func() { ruleStreamCtxDescends(c, "C07.1") })
 			c.guard("C07.2", func() { ruleStreamBlockingHonoursCtx(c, "C07.2") })
-			c.guard("C07.3", func() { ruleCtxErrorToStatus(c, "C07.3") })
+			c.guard("C07.3", func() { ruleCtxErrorToStatus(c, "C07.3"); ruleTerminalErrorAssigned(c, "C07.3") })
 			c.guard("C07.4", func() { ruleResetOnLiveContext(c, "C07.4") })
 			c.guard("C07.5", func() { ruleResetCancelsHandler(c, "C07.5") })
 			c.guard("C07.6", func() { ruleHandlerBlockingHonoursCtx(c, "C07.6") })
@@ -198,6 +210,7 @@ func init() {
 			c.guard("C09.1", func() {
 				ruleFailurePublication(c, "C09.1")
 				ruleRegistryRemovalSites(c, "C09.1", "client.RpcMultiplexer.handlers", []string{"client.RpcMultiplexer.unregisterHandler", "client.RpcMultiplexer.closeError"})
+				ruleWhoPublishesFailure(c, "C09.1")
 			})
 			c.guard("C09.2", func() { ruleCheckThenRegister(c, "C09.2") })
 			c.guard("C09.3", func() { ruleReadLoopExitPublished(c, "C09.3") })
